@@ -570,58 +570,74 @@ theorem flowEntries_lay : ∀ (es : List (SVal × SVal)), inFlowFragEntries es =
     simpa [flowEntriesTail, keyOf] using AllLay.append (a := [',', ' ']) (allLay_lit _ (by decide)) h3
 end
 
+/-- a one-line flow collection as the only line of a document: a good line that reads as the collection -/
+theorem flow_line_root (t : List Char) (pv : PVal) (hl : AllLay t)
+    (hs : ∃ cs, t = '[' :: cs ∨ t = '{' :: cs)
+    (hread : flowNode (t.length + 2) t = some (pv, [])) :
+    AllGood [⟨0, t⟩] ∧ ∀ fuel, fuel ≥ 2 * mu [⟨0, t⟩] + 2 → blockNode fuel 0 none false [⟨0, t⟩] = some (pv, []) := by
+  have hgl : GoodLine ⟨0, t⟩ := bracketLine_good hs hl
+  refine ⟨AllGood.cons hgl allGood_nil, ?_⟩
+  intro fuel hf
+  obtain ⟨f', rfl⟩ : ∃ f', fuel = f' + 1 := ⟨fuel - 1, by omega⟩
+  rw [blockNode, skipBlank_cons [] (goodLine_notSkippable hgl)]
+  obtain ⟨cs, h | h⟩ := hs
+  · subst h
+    simp [classify, skipTag, flowAcross, hread] at hread ⊢
+  · subst h
+    simp [classify, skipTag, flowAcross, hread] at hread ⊢
+
 /-- a one-line flow collection, read as a document -/
 theorem readDoc_flow_line (t : List Char) (pv : PVal) (hl : AllLay t)
     (hs : ∃ cs, t = '[' :: cs ∨ t = '{' :: cs)
     (hread : flowNode (t.length + 2) t = some (pv, [])) : readDoc (t ++ ['\n']) = some pv := by
-  have hgl : GoodLine ⟨0, t⟩ := by
-    obtain ⟨cs, h | h⟩ := hs
-    · exact ⟨⟨'[', cs, h, Or.inr (Or.inl rfl)⟩, hl⟩
-    · exact ⟨⟨'{', cs, h, Or.inr (Or.inr (Or.inl rfl))⟩, hl⟩
-  have hg : AllGood [⟨0, t⟩] := AllGood.cons hgl allGood_nil
-  have := readDoc_of_lines [⟨0, t⟩] pv hg (by simp) (by
-    intro fuel hf
-    obtain ⟨f', rfl⟩ : ∃ f', fuel = f' + 1 := ⟨fuel - 1, by omega⟩
-    rw [blockNode, skipBlank_cons [] (goodLine_notSkippable hgl)]
-    obtain ⟨cs, h | h⟩ := hs
-    · subst h
-      simp [classify, skipTag, flowAcross, hread] at hread ⊢
-    · subst h
-      simp [classify, skipTag, flowAcross, hread] at hread ⊢)
+  obtain ⟨hg, hr⟩ := flow_line_root t pv hl hs hread
+  have := readDoc_of_lines [⟨0, t⟩] pv hg (by simp) hr
   simpa [renderLines, spaces] using this
+
+/-- … after the prologue of `yaml_12` -/
+theorem readDoc_flow_line_pro (o : Opts) (t : List Char) (pv : PVal) (hl : AllLay t)
+    (hs : ∃ cs, t = '[' :: cs ∨ t = '{' :: cs)
+    (hread : flowNode (t.length + 2) t = some (pv, [])) : readDoc (prologue o ++ t ++ ['\n']) = some pv := by
+  obtain ⟨hg, hr⟩ := flow_line_root t pv hl hs hread
+  unfold prologue
+  cases o.yaml12
+  · have := readDoc_of_lines [⟨0, t⟩] pv hg (by simp) hr
+    simpa [renderLines, spaces] using this
+  · have := readDoc_of_lines_pro [⟨0, t⟩] pv hg hr
+    simpa [renderLines, spaces] using this
 
 /-! ### the flow wrappers at the root -/
 
 section
 variable {o : Opts} {f : ScalarFns}
 
-theorem serializeSeq_flow_root (ho : FragOpts o) :
+theorem serializeSeq_flow_root (ho : PlainOpts o) :
     (serializeSeq o ({ pendingFlow := some .anySeq } : St)).1.flow = true ∧
     (serializeSeq o ({ pendingFlow := some .anySeq } : St)).1.first = true ∧
     (serializeSeq o ({ pendingFlow := some .anySeq } : St)).1.restoreShift = none ∧
-    (serializeSeq o ({ pendingFlow := some .anySeq } : St)).2.out = ['['] ∧
+    (serializeSeq o ({ pendingFlow := some .anySeq } : St)).2.out = prologue o ++ ['['] ∧
     Mid (serializeSeq o ({ pendingFlow := some .anySeq } : St)).2 ∧
     (serializeSeq o ({ pendingFlow := some .anySeq } : St)).2.pendingSpaceAfterColon = false ∧
     (serializeSeq o ({ pendingFlow := some .anySeq } : St)).2.inFlow = 0 := by
-  have := ho.yaml12
-  refine ⟨?_, ?_, ?_, ?_, ⟨?_, ?_⟩, ?_, ?_⟩ <;>
-    simp [serializeSeq, takeFlow, writeSpaceIfPending, indentIfLineStart, writeIndent, indentCols, St.write, spaces, *]
+  refine ⟨?_, ?_, ?_, ?_, ⟨?_, ?_⟩, ?_, ?_⟩ <;> cases hy : o.yaml12 <;>
+    simp [serializeSeq, takeFlow, writeSpaceIfPending, indentIfLineStart, writeIndent, indentCols, St.write, spaces, prologue,
+      prologueText, hy]
 
-theorem serializeMap_flow_root (ho : FragOpts o) (len : Option Nat) :
+theorem serializeMap_flow_root (ho : PlainOpts o) (len : Option Nat) :
     (serializeMap o len ({ pendingFlow := some .anyMap } : St)).1.flow = true ∧
     (serializeMap o len ({ pendingFlow := some .anyMap } : St)).1.first = true ∧
     (serializeMap o len ({ pendingFlow := some .anyMap } : St)).1.restoreShift = none ∧
-    (serializeMap o len ({ pendingFlow := some .anyMap } : St)).2.out = ['{'] ∧
+    (serializeMap o len ({ pendingFlow := some .anyMap } : St)).2.out = prologue o ++ ['{'] ∧
     Mid (serializeMap o len ({ pendingFlow := some .anyMap } : St)).2 ∧
     (serializeMap o len ({ pendingFlow := some .anyMap } : St)).2.pendingSpaceAfterColon = false ∧
     (serializeMap o len ({ pendingFlow := some .anyMap } : St)).2.inFlow = 0 := by
-  have := ho.yaml12
-  refine ⟨?_, ?_, ?_, ?_, ⟨?_, ?_⟩, ?_, ?_⟩ <;>
-    simp [serializeMap, takeFlow, writeSpaceIfPending, indentIfLineStart, writeIndent, indentCols, St.write, spaces, *]
+  refine ⟨?_, ?_, ?_, ?_, ⟨?_, ?_⟩, ?_, ?_⟩ <;> cases hy : o.yaml12 <;>
+    simp [serializeMap, takeFlow, writeSpaceIfPending, indentIfLineStart, writeIndent, indentCols, St.write, spaces, prologue,
+      prologueText, hy]
 
 /-- `FlowSeq(seq)` at the root: one line, the flow text -/
-theorem emit_flowSeq (ho : FragOpts o) (hf : SafeContract f) (xs : List SVal) (hv : inFlowFragList xs = true) :
-    emit o f (.flowSeq (.seq xs)) = .ok (flowTxt (.seq xs) ++ ['\n']) := by
+theorem emit_flowSeq (ho : PlainOpts o) (hf : SafeContract f) (xs : List SVal) (hv : inFlowFragList xs = true) :
+    emit o f (.flowSeq (.seq xs)) = .ok (prologue o ++ flowTxt (.seq xs) ++ ['\n']) := by
   obtain ⟨hq1, hq2, hq3, hout1, hm1, hp1, hi1⟩ := serializeSeq_flow_root (o := o) ho
   obtain ⟨q', s', he, hqf, hqr, hout, hm, hp, hi⟩ := ser_flow_items ho hf xs hv _ (serializeSeq o _).1 hq1 hm1 hp1
   have h0 : (s'.inFlow == 0) = true := by rw [hi, hi1]; rfl
@@ -636,9 +652,9 @@ theorem emit_flowSeq (ho : FragOpts o) (hf : SafeContract f) (xs : List SVal) (h
   simp [seqEnd, hr, hqf, St.write, newline, h0, hout, hout1, hq2, flowTxt, List.append_assoc]
 
 /-- `FlowMap(map)` at the root -/
-theorem emit_flowMap (ho : FragOpts o) (hf : SafeContract f) (known : Bool) (es : List (SVal × SVal))
+theorem emit_flowMap (ho : PlainOpts o) (hf : SafeContract f) (known : Bool) (es : List (SVal × SVal))
     (hv : inFlowFragEntries es = true) :
-    emit o f (.flowMap (.map known es)) = .ok (flowTxt (.map known es) ++ ['\n']) := by
+    emit o f (.flowMap (.map known es)) = .ok (prologue o ++ flowTxt (.map known es) ++ ['\n']) := by
   obtain ⟨hq1, hq2, hq3, hout1, hm1, hp1, hi1⟩ := serializeMap_flow_root (o := o) ho (if known then some es.length else none)
   obtain ⟨m', s', he, hmf, hmr, hout, hm, hp, hi⟩ := ser_flow_entries ho hf es hv _ (serializeMap o _ _).1 hq1 hm1 hp1
   have h0 : (s'.inFlow == 0) = true := by rw [hi, hi1]; rfl
@@ -658,6 +674,13 @@ end
 theorem read_flow_doc (v : SVal) (hv : inFlowFrag v = true) (hs : ∃ cs, flowTxt v = '[' :: cs ∨ flowTxt v = '{' :: cs) :
     readDoc (flowTxt v ++ ['\n']) = some (erase v) := by
   refine readDoc_flow_line _ _ (flowTxt_lay v hv) hs ?_
+  have := read_flow v hv ((flowTxt v).length + 2) 0 [] (by omega) (Or.inl rfl)
+  simpa [spaces] using this
+
+/-- … after the prologue of `yaml_12` -/
+theorem read_flow_doc_pro (o : Opts) (v : SVal) (hv : inFlowFrag v = true) (hs : ∃ cs, flowTxt v = '[' :: cs ∨ flowTxt v = '{' :: cs) :
+    readDoc (prologue o ++ flowTxt v ++ ['\n']) = some (erase v) := by
+  refine readDoc_flow_line_pro o _ _ (flowTxt_lay v hv) hs ?_
   have := read_flow v hv ((flowTxt v).length + 2) 0 [] (by omega) (Or.inl rfl)
   simpa [spaces] using this
 
